@@ -156,6 +156,13 @@ def check(ctx):
            where=fn.span, detail={"found": sorted(found)}, sample={"reject_sites": sorted(found)})
     ctx.ob("R-3", "nonempty-bytes-validator", try_next_validator(prog), "try_as_nonempty_bytes = try_as_bytes + reject the empty string")
 
+
+    # label classification the accepted set depends on (shared recognisers of C17 R-3/R-4)
+    from rules import c17
+    for _enum in ['iana::Algorithm']:
+        c17.check_private_predicate(ctx, "R-1", _enum)
+    c17._classify(ctx, "<common::RegisteredLabelWithPrivate<T> as common::AsCborValue>::from_cbor_value", private=True)
+    c17._classify(ctx, "<common::RegisteredLabel<T> as common::AsCborValue>::from_cbor_value", private=False)
     # ---- R-4 -------------------------------------------------------------------------------------------------
     written = sorted({f for f, e in md.field_effects() if e["bb"] in md.loop[1]})
     allf = sorted(prog.struct_fields(RESULT) or [])
